@@ -103,10 +103,14 @@ class FunctionCall:
         takes_positional = (inspect.Parameter.POSITIONAL_ONLY, inspect.Parameter.POSITIONAL_OR_KEYWORD)
 
         for key, param in params.items():
-            self._already_checked_kwargs.append(key)
+            takes_keyword = param.kind is not inspect.Parameter.POSITIONAL_ONLY  # else the keyword `key` belongs to **kwargs
+
+            if takes_keyword:
+                self._already_checked_kwargs.append(key)
+
             self._assert_param_has_type_annotation(param=param)
 
-            if key in self.kwargs:
+            if takes_keyword and key in self.kwargs:
                 actual_value = self.kwargs[key]
             elif param.kind in takes_positional and not self.func.should_have_kwargs and arg_index < len(self.args):
                 actual_value = self.args[arg_index]  # what Python binds to the parameter, whether or not it has a default
